@@ -13,7 +13,7 @@ SpanFns   == {"strspn_s", "strcspn_s"}
 IdxFns    == {"strfirstdiff_s", "strfirstsame_s", "strlastdiff_s", "strlastsame_s"}
 ClassFns  == {"strisalphanumeric_s", "strisascii_s", "strisdigit_s", "strishex_s", "strislowercase_s", "strismixedcase_s", "strisuppercase_s"}
 LenFns    == {"strnlen_s", "wcsnlen_s"}
-StrQueryFns == CmpFns \cup MemCmpFns \cup FindFns \cup ChrFns \cup SpanFns \cup IdxFns \cup ClassFns \cup LenFns \cup {"strprefix_s"}
+StrQueryFns == CmpFns \cup MemCmpFns \cup FindFns \cup ChrFns \cup SpanFns \cup IdxFns \cup ClassFns \cup LenFns \cup {"strprefix_s", "strispassword_s"}
 
 WithSg(o, k) == [o EXCEPT !.sg = k]
 Same0(a) == [i \in 1..Len(a) |-> Same({"C10", "C01"})]          \* operands are never modified
@@ -142,6 +142,22 @@ LenOutcomes(e) ==
                    \cup (IF e.fn = "wcsnlen_s" /\ e.d = NULLP THEN {WithO1(StatusOut(NOSTAT, Same0(e.pre)), {0})} ELSE {})   \* documented: NULL -> 0
   ELSE {WithO1([StatusOut(NOSTAT, Same0(e.pre)) EXCEPT !.rtag = {"C10"}], {ScanLen(e.pre, e.d, e.dmax)})}
 
+(* ---- strispassword_s: the documented make-up rule.  6 <= dmax <= 32; at least 2 lower case, 2 upper case, 1 digit and 1
+   special character (printable ASCII that is none of the former), nothing else, fewer than 32 characters ---- *)
+PwMin == 6  PwMax == 32
+PasswordOutcomes(e) ==
+  LET V == {c \in {ESNULLP} : e.d = NULLP} \cup {c \in {ESZEROL, ESLEMIN} : e.dmax = 0}
+           \cup {c \in {ESLEMAX} : e.dmax = HUGE \/ e.dmax > PwMax} \cup {c \in {ESLEMIN} : e.dmax # HUGE /\ e.dmax > 0 /\ e.dmax < PwMin}
+           \cup {c \in {EOVERFLOW} : e.dbos # UNK /\ e.dmax # HUGE /\ e.dmax > e.dbos}
+      bool(b) == WithO1([StatusOut(NOSTAT, Same0(e.pre)) EXCEPT !.rtag = {"C10"}], {IF b THEN 1 ELSE 0})
+  IN IF V # {} THEN {WithO1(Out("err", {NOSTAT}, {<<c>>}, Same0(e.pre)), {0}) : c \in V}
+     ELSE LET D == Str(e.pre, e.d, e.dmax)
+              cnt(lo, hi) == Cardinality({i \in 1..Len(D) : D[i] >= lo /\ D[i] <= hi})
+              legal == \A i \in 1..Len(D) : D[i] >= 33 /\ D[i] <= 126
+              specials == Len(D) - cnt(48, 57) - cnt(97, 122) - cnt(65, 90)
+          IN IF Len(D) = e.dmax /\ legal THEN {WithO1(Out("err", {NOSTAT}, {<<ESUNTERM>>}, Same0(e.pre)), {0})}      \* no terminator within dmax
+             ELSE IF Len(D) = e.dmax THEN {WithO1(Out("err", {NOSTAT}, {<<ESUNTERM>>}, Same0(e.pre)), {0}), bool(FALSE)}   \* an illegal character may be met first
+             ELSE {bool(legal /\ Len(D) >= 1 /\ cnt(48, 57) >= 1 /\ cnt(97, 122) >= 2 /\ cnt(65, 90) >= 2 /\ specials >= 1)}
 StrQueryOutcomes(e) ==
   CASE e.fn \in CmpFns -> CmpOutcomes(e)
     [] e.fn \in MemCmpFns -> MemCmpOutcomes(e)
@@ -152,9 +168,25 @@ StrQueryOutcomes(e) ==
     [] e.fn \in ClassFns -> ClassOutcomes(e)
     [] e.fn \in LenFns -> LenOutcomes(e)
     [] e.fn = "strprefix_s" -> PrefixOutcomes(e)
+    [] e.fn = "strispassword_s" -> PasswordOutcomes(e)
 (* Known finding: strcoll_s hands both strings to libc strcoll unbounded: dmax is ignored. *)
+PwViol(e) == e.d = NULLP \/ e.dmax = 0 \/ e.dmax = HUGE \/ e.dmax > PwMax \/ e.dmax < PwMin \/ (e.dbos # UNK /\ e.dmax > e.dbos)
 StrQueryDeviations(e) ==
-  IF e.fn = "strcoll_s" /\ QViol(e, TRUE, FALSE) = {}
+  IF e.fn = "strispassword_s" /\ ~PwViol(e) /\ Len(Str(e.pre, e.d, e.dmax)) = e.dmax
+  THEN \* Known finding: the loop looks at dest[dmax] before it notices that dmax is used up (the unit tests pass dmax = strlen(dest)):
+       \* a terminator exactly at dest[dmax] is accepted and the string judged; otherwise dest[dmax] is read
+       LET D == Str(e.pre, e.d, e.dmax)
+           cnt(lo, hi) == Cardinality({i \in 1..Len(D) : D[i] >= lo /\ D[i] <= hi})
+           legal == \A i \in 1..Len(D) : D[i] >= 33 /\ D[i] <= 126
+           specials == Len(D) - cnt(48, 57) - cnt(97, 122) - cnt(65, 90)
+           good == legal /\ Len(D) < PwMax /\ cnt(48, 57) >= 1 /\ cnt(97, 122) >= 2 /\ cnt(65, 90) >= 2 /\ specials >= 1
+       IN {[name |-> "Dev_password_term_at_dmax", props |-> {"C02"},
+            o |-> WithFault(Out("err", {-9999, NOSTAT}, {<<>>}, Same0(e.pre)), "r", {AnyV})]} \cup
+          (IF e.d + e.dmax <= Len(e.pre) /\ e.pre[e.d + e.dmax] = 0
+           THEN {[name |-> "Dev_password_term_at_dmax", props |-> {"C02", "C05", "C10"},
+                  o |-> WithO1([StatusOut(NOSTAT, Same0(e.pre)) EXCEPT !.rtag = {"C10"}], {IF good THEN 1 ELSE 0})]}
+           ELSE {})
+  ELSE IF e.fn = "strcoll_s" /\ QViol(e, TRUE, FALSE) = {}
   THEN {[name |-> "Dev_strcoll_unbounded", props |-> {"C10", "C02"},
          o |-> WithSg(QOk(e), CmpStr(e.pre, e.d, e.s, Len(e.pre), FALSE))],
         [name |-> "Dev_strcoll_unbounded", props |-> {"C02"},
